@@ -274,6 +274,7 @@ type Stats struct {
 	SimTime     int64            `json:"sim_time"`
 	States      []uint64         `json:"state_hashes"`
 	StatesSat   bool             `json:"states_saturated"`
+	NonSat      bool             `json:"nontrivial_saturated"`
 	Samples     []Trace          `json:"samples"`
 	Known       map[string]int   `json:"known_hits"`
 	KnownWhat   map[string]string `json:"known_what"`
@@ -308,7 +309,9 @@ func (s *Stats) absorb(c *Ctx) {
 	}
 	if c.nontrivial {
 		h := c.Trace.Hash()
-		if _, dup := s.nonSet[h]; !dup {
+		if _, dup := s.nonSet[h]; !dup && len(s.nonSet) >= stateCap {
+			s.NonSat = true
+		} else if !dup {
 			s.nonSet[h] = struct{}{}
 			if len(s.Samples) < 2 && len(c.Trace.Ops) <= 400 {
 				tr := *c.Trace
